@@ -204,8 +204,17 @@ def build_and_audit(prop: str, translate=None, thorough=False) -> BuildStatus:
         if r.returncode != 0:
             status.problem("driver-build", "lake build driver failed", r.stdout + r.stderr)
         mods = [f"PandoraModel.Properties.{prop}"]
+        # every module the audit file imports must be built (a property may be spread over several files)
+        try:
+            with open(os.path.join(LEAN_DIR, "PandoraModel", "Audit", f"{prop}.lean"), encoding="utf-8") as f:
+                for line in f:
+                    m = re.match(r"\s*import\s+(PandoraModel\.\S+)", line)
+                    if m and m.group(1) not in mods:
+                        mods.append(m.group(1))
+        except FileNotFoundError:
+            pass
         if thorough:
-            mods = ["PandoraModel"]
+            mods = ["PandoraModel"] + mods
         r = lake(["build"] + mods)
         if r.returncode != 0:
             status.problem("proof-build", f"lake build {' '.join(mods)} failed", r.stdout + r.stderr)
